@@ -38,8 +38,13 @@ for f_ in soaks:
         only = head[5:].split(",")
     for ln in open(f_):
         r = json.loads(ln)
-        if only:
-            r["only"] = only
+        if only and only == ["C07"] and gen_defs.excluded_by(
+                gen_defs.load_workload(r["wid"])) is None:
+            only_here = None     # no longer excluded (R3 refined): explored
+        else:                    # by every learner check
+            only_here = only
+        if only_here:
+            r["only"] = only_here
             r["status"] = "restricted"
         recs[(r["wid"], r["sched"])] = r
 pts = collections.defaultdict(set)   # (prop, cls) -> {(wid, sid)}
@@ -120,21 +125,33 @@ WHAT = {
     ("C02", "extra-job"): PARTIAL + "sub-sample happened to be complete",
     ("C05", "break-misplaced"): PARTIAL + "break outside repeat",
 }
+def is_partial(w, sid):
+    return "#s" in w or grid.schedule_flags(sid)["subsample"]
+
+
 for (prop, cls), s in sorted(pts.items()):
-    rest = sorted((w, sid) for w, sid in s if w not in CORPUS_ALL)
-    if not rest:
-        continue
-    per_w = collections.Counter(w for w, _ in rest)
-    everywhere = {w for w, n in per_w.items() if n == n_sids[w]}
-    inputs = [[w, "*"] for w in sorted(everywhere)] + [
-        [w, sid] for w, sid in rest if w not in everywhere]
-    findings.append({
-        "property": prop, "status": "known",
-        "key": {"violation_class": cls},
-        "inputs": inputs,
-        "what": WHAT.get((prop, cls), PARTIAL + cls)
-        + f" ({len(rest)} grid points of the soaked grid, "
-          f"{len(everywhere)} workloads under every schedule)"})
+    for partial in (True, False):
+        rest = sorted((w, sid) for w, sid in s if w not in CORPUS_ALL
+                      and is_partial(w, sid) == partial)
+        if not rest:
+            continue
+        per_w = collections.Counter(w for w, _ in rest)
+        everywhere = {w for w, n in per_w.items() if n == n_sids[w]}
+        inputs = [[w, "*"] for w in sorted(everywhere)] + [
+            [w, sid] for w, sid in rest if w not in everywhere]
+        what = (WHAT.get((prop, cls), PARTIAL + cls) if partial else
+                "COMPLETE sample of a definition in which a loop that ends "
+                "in an AND/OR fork is the last item of a fork branch (the "
+                "class next to R3: the loop-end dummy gets one in-set per "
+                "end event) [" + cls + "]: "
+                + ", ".join(sorted(per_w)))
+        findings.append({
+            "property": prop, "status": "known",
+            "key": {"violation_class": cls},
+            "inputs": inputs,
+            "what": what
+            + f" ({len(rest)} grid points of the soaked grid, "
+              f"{len(everywhere)} workloads under every schedule)"})
 # representatives of the structurally excluded classes
 ex = json.load(open(excl))
 RULE = {
